@@ -15,7 +15,7 @@ func VerifC20_ValidatePattern() {
 		ValidatePattern("w", "w", p0)
 	}
 	var r0, r1 error
-	verifConcurrently(
+	verifInterleave(
 		func() { r0 = ValidatePattern("a", v0, p0) },
 		func() { r1 = ValidatePattern("b", v1, p1) },
 	)
@@ -28,7 +28,7 @@ func VerifC20_ValidatePattern() {
 func VerifC20_MergeErrorsIsolation() {
 	m0, m1 := nondetString("m0", 1), nondetString("m1", 1)
 	var e0, e1 error
-	verifConcurrently(
+	verifInterleave(
 		func() { e0 = MergeErrors(MissingFieldError(m0, "body"), InvalidLengthError(m0, m0, 1, 2, true)) },
 		func() { e1 = MergeErrors(MissingFieldError(m1, "body"), InvalidLengthError(m1, m1, 1, 2, true)) },
 	)
@@ -75,7 +75,7 @@ func VerifC20_ValidationErrorConstructors() {
 		build("z", nondetBool("earlier-is-second-kind"))
 	}
 	var e0, e1 error
-	verifConcurrently(
+	verifInterleave(
 		func() { e0 = build(v0, false) },
 		func() { e1 = build(v1, true) },
 	)
